@@ -158,13 +158,18 @@ func sampleDocs(r *rng, all []corpusDoc, n int, must ...string) []corpusDoc {
 var synthVocab = []string{"alpha", "beta", "gamma", "delta", "epsilon", "zeta", "eta", "theta", "iota", "kappa", "lambda", "mu",
 	"nu", "xi", "omicron", "pi", "rho", "sigma", "tau", "upsilon", "phi", "chi", "psi", "omega", "one", "two", "three", "four",
 	"five", "six", "seven", "eight", "nine", "ten", "red", "green", "blue", "black", "white", "north", "south", "east", "west",
-	"version", "2.0", "1.1", "gnu", "lesser", "library", "general", "public", "license", "the", "of", "and", "warranty"}
+	"version", "2.0", "1.1", "gnu", "lesser", "library", "general", "public", "license", "the", "of", "and", "warranty",
+	"société", "naïve", "über", "résumé", "日本語", "ελληνικά"}
 
 // synthCorpus: small-vocabulary documents: repetitive, prefixes/suffixes/infixes
 // of each other, duplicates under different names.
 func synthCorpus(r *rng, ndocs int) []corpusDoc {
 	var docs []corpusDoc
 	vocab := synthVocab[:5+r.intn(len(synthVocab)-5)]
+	if r.chance(1, 3) {
+		// words with multi-byte letters: byte and rune lengths of the texts differ
+		vocab = append(append([]string{}, vocab[:4+r.intn(len(vocab)-3)]...), "société", "naïve", "über", "résumé", "日本語", "ελληνικά")
+	}
 	mk := func(n int) string {
 		var ws []string
 		for i := 0; i < n; i++ {
